@@ -1,0 +1,26 @@
+// SPDX-FileCopyrightText: 2023 The Pion community <https://pion.ly>
+// SPDX-License-Identifier: MIT
+
+//go:build verif
+
+package stun
+
+import "sync/atomic"
+
+// Verification hook, compiled only with the "verif" build tag: lets a test
+// harness observe (and pause at) critical sections that are not reachable
+// through the injectable interfaces.
+
+var verifGateFn atomic.Value // func(*Client, string)
+
+// SetVerifGate installs f, called at the entry of the hooked critical
+// sections with the client and the name of the section.
+func SetVerifGate(f func(c *Client, name string)) {
+	verifGateFn.Store(f)
+}
+
+func verifGate(c *Client, name string) {
+	if f, ok := verifGateFn.Load().(func(*Client, string)); ok && f != nil {
+		f(c, name)
+	}
+}
